@@ -173,6 +173,9 @@ func transactOnConn(ctx context.Context, conn *sql.DB, b beginnable,
 		return
 	}
 
+	// returned tells a body that returned from one that ended its goroutine (runtime.Goexit),
+	// in which case no panic is in flight and err is still nil, but nothing must be committed.
+	var returned bool
 	defer func() {
 		if p := recover(); p != nil {
 			if e := tx.Rollback(); e != nil {
@@ -180,14 +183,17 @@ func transactOnConn(ctx context.Context, conn *sql.DB, b beginnable,
 			} else {
 				err = fmt.Errorf("recover from %#v", p)
 			}
-		} else if err != nil {
+		} else if err != nil || !returned {
 			if e := tx.Rollback(); e != nil {
-				err = fmt.Errorf("transaction failed: %s, rollback failed: %w", err, e)
+				err = fmt.Errorf("transaction failed: %v, rollback failed: %w", err, e)
 			}
 		} else {
 			err = tx.Commit()
 		}
 	}()
 
-	return fn(ctx, tx)
+	err = fn(ctx, tx)
+	returned = true
+
+	return
 }
